@@ -5,6 +5,7 @@ import (
 	"encoding/json"
 	"errors"
 	"fmt"
+	"github.com/ava-labs/avalanchego/utils/logging"
 	"testing"
 	"time"
 
@@ -53,6 +54,9 @@ type c02Case struct {
 	// was 7 higher, 3: storage key costs were 3 higher, 4: the block limit was half); every block
 	// built now is governed by the rules in force at its own timestamp
 	Upgrade int `json:",omitempty"`
+	// BudgetUS > 0: the build time budget in microseconds (with a slow builder log the budget
+	// runs out between two stream batches or in the middle of one)
+	BudgetUS int `json:",omitempty"`
 }
 
 // bulkTx is the i-th extra tx: one action touching one or two universe keys.
@@ -138,6 +142,13 @@ func c02Gen(rt *rapid.T) c02Case {
 	}
 	c.Admit = rapid.Bool().Draw(rt, "admit")
 	c.SlowLog = rapid.IntRange(0, 2).Draw(rt, "slowlog") == 0
+	if rapid.IntRange(0, 5).Draw(rt, "budgetmode") == 0 {
+		c.BudgetUS = rapid.SampledFrom([]int{1, 50, 300, 1000, 3000}).Draw(rt, "budget")
+		if c.Bulk == 0 && rapid.Bool().Draw(rt, "budgetBulk") {
+			// the budget is looked at between stream batches: more than one batch
+			c.Bulk = rapid.SampledFrom([]int{300, 520}).Draw(rt, "budgetBulkN")
+		}
+	}
 	if rapid.IntRange(0, 3).Draw(rt, "upgrademode") == 0 {
 		c.Upgrade = rapid.IntRange(1, 4).Draw(rt, "upgrade")
 	}
@@ -312,6 +323,14 @@ func c02Run(c c02Case, st *vstat.Stats) error {
 		if c.SlowLog {
 			b = l.builderWith(vwBuilder, c.Cores, c.TargetSz, slowLogger{})
 			labels["slow-builder-log"] = true
+		}
+		if c.BudgetUS > 0 {
+			var lg logging.Logger = logging.NoLog{}
+			if c.SlowLog {
+				lg = slowLogger{}
+			}
+			b = l.builderFor(vwBuilder, c.Cores, c.TargetSz, lg, time.Duration(c.BudgetUS)*time.Microsecond)
+			labels["short-build-budget"] = true
 		}
 		if c.Upgrade > 0 {
 			labels[fmt.Sprintf("rule-change-between-parent-and-block:%d", c.Upgrade)] = true
